@@ -185,7 +185,9 @@ def _sig_table_first_in_item(case: dict, f: Failure) -> bool:
         return False
     o = dict(case["opts"])
     once = opts.fmt(case["text"], o)
-    return re.search(r"^[ >]*(?:[-*+]|\d+[.)])[ \t]+\|.*\|\n[ >]+\|( :?-+:? \|)+$", once, re.M) is not None
+    twice = opts.fmt(once, o)
+    pat = r"^[ >]*(?:[-*+]|\d+[.)])[ \t]+\|.*\|\n[ >]+\|( :?-+:? \|)+$"
+    return re.search(pat, once, re.M) is not None or re.search(pat, twice, re.M) is not None
 
 
 def _sig_def_label_lone_backslash(case: dict, f: Failure) -> bool:
